@@ -406,7 +406,7 @@ class UpConverter(LiteXModule):
 
         # # #
 
-        self.comb += master.connect(slave, omit={"adr", "sel", "dat_w", "dat_r"})
+        self.comb += master.connect(slave, omit={"adr", "sel", "dat_w", "dat_r", "cti", "bte"})
         cases = {}
         for i in range(ratio):
             cases[i] = [
